@@ -151,14 +151,15 @@ func (o *Obligation) Query() (string, []*Term) {
 	return t, gt
 }
 
-func (o *Obligation) Query2() (string, string, []*Term) {
+func (o *Obligation) Query2() (string, []string, []*Term) {
 	ex := o.Ex
 	var as []*Term
 	as = append(as, ex.axioms...)
-	as = append(as, ex.ifaceAxioms()...)
+	as = append(as, ex.ifaceAx...)
 	as = append(as, ex.assumes[:o.NAssume]...)
 	as = append(as, o.Reach)
 	var light []*Term
+	var lights [][]*Term
 	if o.Cover {
 		anyQ := false
 		for _, h := range as {
@@ -177,7 +178,7 @@ func (o *Obligation) Query2() (string, string, []*Term) {
 		ctr := 0
 		var sks []*Term
 		ng := negSkolemC(o.Goal, &ctr, &sks)
-		insts := instantiate(as, ng, sks)
+		insts, gens := instantiate(as, ng, sks, ex.lowPrio)
 		anyQ := false
 		for _, h := range as {
 			sh := stripQuant(h)
@@ -187,18 +188,31 @@ func (o *Obligation) Query2() (string, string, []*Term) {
 			light = append(light, sh)
 		}
 		if anyQ {
-			light = append(light, insts...)
-			light = append(light, ng)
-		} else {
-			light = nil
+			prev := -1
+			for _, n := range gens {
+				if n == prev {
+					continue
+				}
+				prev = n
+				l := append([]*Term{}, light...)
+				l = append(l, insts[:n]...)
+				l = append(l, ng)
+				lights = append(lights, l)
+			}
+			if len(lights) == 0 {
+				lights = append(lights, append(append([]*Term{}, light...), ng))
+			}
 		}
-		as = append(as, insts...)
+		if len(gens) > 0 {
+			// the full query carries the first-generation instances only
+			as = append(as, insts[:gens[0]]...)
+		}
 		as = append(as, ng)
 	}
-	lightText := ""
-	if light != nil {
-		lsc := &Script{Asserts: light}
-		lightText = lsc.Render(preludeFor(light), nil)
+	var lightText []string
+	for _, l := range lights {
+		lsc := &Script{Asserts: l}
+		lightText = append(lightText, lsc.Render(preludeFor(l), nil))
 	}
 	sc := &Script{Asserts: as}
 	text := sc.Render(preludeFor(as), nil)
@@ -220,7 +234,7 @@ func (o *Obligation) Query2() (string, string, []*Term) {
 		gv = append(gv, smtSym(n))
 		gt = append(gt, Const(n, si.consts[n]))
 	}
-	for _, t := range ex.infoTerms() {
+	for _, t := range ex.infoCache {
 		gv = append(gv, t.String())
 		gt = append(gt, t)
 	}
@@ -295,53 +309,83 @@ func runSolver(ctx context.Context, bin string, args []string, file string, time
 	return "error", s, el
 }
 
-func (V *Verifier) portfolio(file string) solveResult {
-	T := time.Duration(V.opts.Timeout) * time.Second
-	seed := V.opts.Seed
-	t1 := T / 3
-	if t1 < 2*time.Second {
-		t1 = T
+type solverCfg struct {
+	name string
+	bin  string
+	args func(T time.Duration, seed int) []string
+}
+
+func z3args(extra ...string) func(T time.Duration, seed int) []string {
+	return func(T time.Duration, seed int) []string {
+		a := []string{fmt.Sprintf("-T:%d", int(T.Seconds())), fmt.Sprintf("smt.random_seed=%d", seed)}
+		return append(a, extra...)
 	}
-	ctx := context.Background()
-	total := 0.0
-	st, out, el := runSolver(ctx, "z3-new", []string{fmt.Sprintf("-T:%d", int(t1.Seconds())), fmt.Sprintf("smt.random_seed=%d", seed)}, file, t1)
-	total += el
-	if st == "sat" || st == "unsat" {
-		return solveResult{st, "z3-new", total, out}
+}
+
+func cvc5args(extra ...string) func(T time.Duration, seed int) []string {
+	return func(T time.Duration, seed int) []string {
+		return append([]string{fmt.Sprintf("--tlimit=%d", T.Milliseconds()), fmt.Sprintf("--seed=%d", seed)}, extra...)
 	}
-	firstOut := out
+}
+
+var stage1 = []solverCfg{
+	{"z3-new/noext", "z3-new", z3args("smt.mbqi=false", "smt.array.extensional=false")},
+	{"cvc5", "cvc5", cvc5args()},
+	{"z3-new", "z3-new", z3args()},
+}
+var stage2 = []solverCfg{
+	{"z3", "z3", z3args()},
+	{"z3-new/norel", "z3-new", z3args("smt.mbqi=false", "smt.relevancy=0")},
+	{"z3-new/arith2", "z3-new", z3args("smt.arith.solver=2")},
+}
+
+func (V *Verifier) race(file string, cfgs []solverCfg, T time.Duration) (solveResult, bool) {
 	type r struct {
 		st, out, name string
 		el           float64
 	}
-	ch := make(chan r, 3)
-	cctx, cancel := context.WithCancel(ctx)
+	ch := make(chan r, len(cfgs))
+	cctx, cancel := context.WithCancel(context.Background())
 	defer cancel()
-	go func() {
-		s, o, e := runSolver(cctx, "z3", []string{fmt.Sprintf("-T:%d", int(T.Seconds())), fmt.Sprintf("smt.random_seed=%d", seed)}, file, T)
-		ch <- r{s, o, "z3", e}
-	}()
-	go func() {
-		s, o, e := runSolver(cctx, "cvc5", []string{fmt.Sprintf("--tlimit=%d", T.Milliseconds()), fmt.Sprintf("--seed=%d", seed)}, file, T)
-		ch <- r{s, o, "cvc5", e}
-	}()
-	go func() {
-		s, o, e := runSolver(cctx, "z3-new", []string{fmt.Sprintf("-T:%d", int(T.Seconds())), fmt.Sprintf("smt.random_seed=%d", seed+1), "smt.arith.solver=2"}, file, T)
-		ch <- r{s, o, "z3-new/2", e}
-	}()
+	for _, c := range cfgs {
+		c := c
+		go func() {
+			s, o, e := runSolver(cctx, c.bin, c.args(T, V.opts.Seed), file, T)
+			ch <- r{s, o, c.name, e}
+		}()
+	}
 	var outs []string
 	maxEl := 0.0
-	for i := 0; i < 3; i++ {
+	for range cfgs {
 		x := <-ch
 		if x.el > maxEl {
 			maxEl = x.el
 		}
 		if x.st == "sat" || x.st == "unsat" {
-			return solveResult{x.st, x.name, total + x.el, x.out}
+			return solveResult{x.st, x.name, x.el, x.out}, true
 		}
 		outs = append(outs, x.name+": "+firstLine(x.out))
 	}
-	return solveResult{"unknown", "none", total + maxEl, "z3-new: " + firstLine(firstOut) + "; " + strings.Join(outs, "; ")}
+	return solveResult{"unknown", "none", maxEl, strings.Join(outs, "; ")}, false
+}
+
+func (V *Verifier) portfolio(file string) solveResult {
+	T := time.Duration(V.opts.Timeout) * time.Second
+	t1 := T / 2
+	if t1 < 2*time.Second {
+		t1 = T
+	}
+	r1, ok := V.race(file, stage1, t1)
+	if ok {
+		return r1
+	}
+	r2, ok := V.race(file, stage2, T)
+	r2.time += r1.time
+	if ok {
+		return r2
+	}
+	r2.output = r1.output + "; " + r2.output
+	return r2
 }
 
 func firstLine(s string) string {
@@ -386,51 +430,91 @@ func lastSexp(s string) string {
 	return s
 }
 
-// SolveAll runs the obligations on a worker pool.
+// SolveAll runs the obligations on worker pools: pass 1 renders each query and tries the cheap
+// instance-only variant (one solver process per worker); pass 2 races the solver portfolio on what
+// is left, with fewer workers so that the raced processes do not starve each other.
 func (V *Verifier) SolveAll(obls []*Obligation) {
-	var wg sync.WaitGroup
-	ch := make(chan *Obligation)
-	// queries must be rendered sequentially (term tables are not thread-safe): pre-render
-	for w := 0; w < V.opts.Workers; w++ {
-		wg.Add(1)
-		go func() {
-			defer wg.Done()
-			for o := range ch {
-				V.solveRendered(o)
-			}
-		}()
-	}
+	// interface-payload axioms touch the (unsynchronised) type tables: compute them up front
+	doneEx := map[*Exec]bool{}
 	for _, o := range obls {
-		if o.Status != "" {
-			continue
+		if !doneEx[o.Ex] {
+			doneEx[o.Ex] = true
+			o.Ex.ifaceAx = o.Ex.ifaceAxioms()
+			o.Ex.infoCache = o.Ex.infoTerms()
 		}
-		V.render(o)
-		ch <- o
 	}
-	close(ch)
-	wg.Wait()
+	run := func(workers int, items []*Obligation, f func(o *Obligation)) {
+		var wg sync.WaitGroup
+		ch := make(chan *Obligation)
+		for w := 0; w < workers; w++ {
+			wg.Add(1)
+			go func() {
+				defer wg.Done()
+				for o := range ch {
+					f(o)
+				}
+			}()
+		}
+		for _, o := range items {
+			ch <- o
+		}
+		close(ch)
+		wg.Wait()
+	}
+	var todo []*Obligation
+	for _, o := range obls {
+		if o.Status == "" {
+			todo = append(todo, o)
+		}
+	}
+	run(V.opts.Workers, todo, func(o *Obligation) {
+		V.render(o)
+		V.solveRendered(o, 1)
+	})
+	var left []*Obligation
+	for _, o := range todo {
+		if o.Status == "" {
+			left = append(left, o)
+		}
+	}
+	w2 := V.opts.Workers / 3
+	if w2 < 1 {
+		w2 = 1
+	}
+	run(w2, left, func(o *Obligation) { V.solveRendered(o, 2) })
 }
 
 type rendered struct {
-	light string
+	light []string
 	text string
 	gt   []*Term
 	gts  []string
 }
 
 var renderedTab = map[*Obligation]*rendered{}
+var renderedMu sync.Mutex
 
 func (V *Verifier) render(o *Obligation) {
+	t0 := time.Now()
+	defer func() {
+		if os.Getenv("GOVC_DEBUG_TIME") != "" {
+			fmt.Fprintf(os.Stderr, "render %s %.2fs\n", o.Name, time.Since(t0).Seconds())
+		}
+	}()
 	text, light, gt := o.Query2()
 	r := &rendered{text: text, gt: gt, light: light}
 	for _, t := range gt {
 		r.gts = append(r.gts, t.String())
 	}
+	renderedMu.Lock()
 	renderedTab[o] = r
+	renderedMu.Unlock()
 }
 
-func (V *Verifier) solveRendered(o *Obligation) {
+func (V *Verifier) solveRendered(o *Obligation, pass int) {
+	renderedMu.Lock()
 	r := renderedTab[o]
+	renderedMu.Unlock()
 	text := r.text
 	h := sha1.Sum([]byte(text))
 	key := fmt.Sprintf("%x", h[:])
@@ -459,25 +543,48 @@ func (V *Verifier) solveRendered(o *Obligation) {
 			res = solveResult{st, "z3-new", el, out}
 		} else {
 			done := false
-			if r.light != "" {
-				lfile := strings.TrimSuffix(file, ".smt2") + ".light.smt2"
-				os.WriteFile(lfile, []byte(r.light), 0644)
+			if pass == 2 {
+				res = V.portfolio(file)
+				res.time += o.Time
+				done = true
+			}
+			if !done && len(r.light) > 0 {
 				lt := time.Duration(V.opts.Timeout) * time.Second / 2
-				st, out, el := runSolver(context.Background(), "z3-new", []string{fmt.Sprintf("-T:%d", int(lt.Seconds()))}, lfile, lt)
-				if st == "unsat" {
-					res = solveResult{st, "z3-new/inst", el, out}
+				if lt < 2*time.Second {
+					lt = 2 * time.Second
+				}
+				for d, ltext := range r.light {
+					lfile := strings.TrimSuffix(file, ".smt2") + fmt.Sprintf(".light%d.smt2", d+1)
+					os.WriteFile(lfile, []byte(ltext), 0644)
+					st, out, el := runSolver(context.Background(), "z3-new", []string{fmt.Sprintf("-T:%d", int(lt.Seconds()))}, lfile, lt)
+					res.time += el
+					if !V.opts.KeepSMT {
+						os.Remove(lfile)
+					}
+					if st == "unsat" {
+						res = solveResult{st, fmt.Sprintf("z3-new/inst%d", d+1), res.time, out}
+						done = true
+						break
+					}
+					if st != "sat" {
+						break // timeout: deeper instance sets will not be faster
+					}
+				}
+			}
+			if !done && len(r.light) == 0 {
+				lt := time.Duration(V.opts.Timeout) * time.Second / 2
+				st, out, el := runSolver(context.Background(), "z3-new", []string{fmt.Sprintf("-T:%d", int(lt.Seconds()))}, file, lt)
+				if st == "unsat" || st == "sat" {
+					res = solveResult{st, "z3-new", el, out}
 					done = true
 				} else {
 					res.time = el
 				}
-				if !V.opts.KeepSMT {
-					os.Remove(lfile)
-				}
 			}
 			if !done {
-				t0 := res.time
-				res = V.portfolio(file)
-				res.time += t0
+				// leave for pass 2
+				o.Time = res.time
+				return
 			}
 		}
 		solveCache.Store(key, res)
@@ -554,31 +661,49 @@ func parseValuesStr(out string, gts []string) map[string]string {
 // select-terms of the goal and of the ground hypotheses, solving unit-coefficient index arithmetic
 // (k + c = t  ==>  k := t - c); (2) for hypotheses whose indices are nonlinear in the bound
 // variables, brute-force instantiation at the goal's skolem constants and program variables.
-func instantiate(hyps []*Term, goal *Term, sks []*Term) []*Term {
-	ic := &instCtx{seenInst: map[*Term]bool{}, groundSeen: map[*Term]bool{}, sks: sks}
+func instantiate(hyps []*Term, goal *Term, sks []*Term, lowPrio map[*Term]bool) ([]*Term, []int) {
+	ic := &instCtx{seenInst: map[*Term]bool{}, groundSeen: map[*Term]bool{}, sks: sks, perRound: 1000}
 	ic.harvest(goal)
 	ic.progVars(goal)
-	for round := 0; round < 5; round++ {
+	var gens []int
+	for round := 0; round < 4; round++ {
 		before := len(ic.out)
-		pending := append([]*Term{}, hyps...)
+		// contract clauses (newest first) before instances of earlier rounds before heap-closure axioms
+		var pending []*Term
+		for k := len(hyps) - 1; k >= 0; k-- {
+			if !lowPrio[hyps[k]] {
+				pending = append(pending, hyps[k])
+			}
+		}
 		pending = append(pending, ic.out...)
+		for _, h := range hyps {
+			if lowPrio[h] {
+				pending = append(pending, h)
+			}
+		}
 		for _, h := range pending {
 			ic.inst(h, True)
-			if len(ic.out) > 900 {
+			if len(ic.out) > 4000 {
 				break
 			}
 		}
-		if len(ic.out) == before || len(ic.out) > 900 {
+		gens = append(gens, len(ic.out))
+		if len(ic.out) == before || len(ic.out) > 4000 {
 			break
 		}
 		for _, t := range ic.out[before:] {
 			ic.harvest(t)
 		}
 	}
-	return ic.out
+	return ic.out, gens
 }
 
+// useMatcher enables govc's own syntactic pattern matching (superseded by solver-side E-matching
+// with explicit :pattern annotations and the at() index wrapper).
+var useMatcher = true
+
 type instCtx struct {
+	perRound   int
 	ground     []*Term // ground select terms
 	groundSeen map[*Term]bool
 	seenInst   map[*Term]bool
@@ -693,15 +818,15 @@ func (ic *instCtx) instForall(h *Term, guard *Term) {
 	}
 	body := h.Args[0]
 	memo := map[*Term]bool{}
-	// patterns: select-terms containing bound vars of this quantifier (not those of inner quantifiers)
+	// maximal select-terms over the bound variables (as E-matching triggers would be chosen)
 	var pats []*Term
 	pseen := map[*Term]bool{}
-	var rec func(t *Term, inner map[*Term]bool)
-	rec = func(t *Term, inner map[*Term]bool) {
-		if pseen[t] && len(inner) == 0 {
-			return
-		}
-		if len(inner) == 0 {
+	var rec func(t *Term, inner map[*Term]bool, under bool)
+	rec = func(t *Term, inner map[*Term]bool, under bool) {
+		if len(inner) == 0 && !under {
+			if pseen[t] {
+				return
+			}
 			pseen[t] = true
 		}
 		ni := inner
@@ -714,74 +839,104 @@ func (ic *instCtx) instForall(h *Term, guard *Term) {
 				ni[v] = true
 			}
 		}
+		isPat := false
 		if t.Op == "select" && containsAny(t, vars, memo) {
 			im := map[*Term]bool{}
 			if len(ni) == 0 || !containsAny(t, ni, im) {
-				pats = append(pats, t)
+				isPat = true
+				if !under {
+					pats = append(pats, t)
+				}
 			}
 		}
 		for _, a := range t.Args {
-			rec(a, ni)
+			rec(a, ni, under || isPat)
 		}
 	}
-	rec(body, map[*Term]bool{})
-	// keep maximal patterns first (bigger terms bind more variables)
-	sort.SliceStable(pats, func(i, j int) bool { return termSize(pats[i]) > termSize(pats[j]) })
+	rec(body, map[*Term]bool{}, false)
+	varsOf := func(t *Term) map[*Term]bool {
+		out := map[*Term]bool{}
+		for v := range vars {
+			m := map[*Term]bool{}
+			if containsAny(t, map[*Term]bool{v: true}, m) {
+				out[v] = true
+			}
+		}
+		return out
+	}
 	var results []map[*Term]*Term
-	var search func(b map[*Term]*Term, depth int)
-	search = func(b map[*Term]*Term, depth int) {
-		if len(results) >= 48 {
-			return
+	var full, partial []*Term
+	for _, p := range pats {
+		if len(varsOf(p)) == len(vars) {
+			full = append(full, p)
+		} else {
+			partial = append(partial, p)
 		}
-		if len(b) == len(h.Vars) {
-			results = append(results, b)
-			return
-		}
-		if depth > 4 {
-			return
-		}
-		// choose an unbound variable and a pattern containing it
-		for _, p := range pats {
-			um := map[*Term]bool{}
-			unb := map[*Term]bool{}
-			for v := range vars {
-				if _, ok := b[v]; !ok {
-					unb[v] = true
-				}
-			}
-			if !containsAny(p, unb, um) {
-				continue
-			}
+	}
+	if useMatcher {
+		for _, p := range full {
 			for _, g := range ic.ground {
 				if g.S != p.S {
 					continue
 				}
 				nb := map[*Term]*Term{}
-				for k, v := range b {
-					nb[k] = v
+				if unify(p, g, vars, nb) && len(nb) == len(vars) {
+					results = append(results, nb)
 				}
-				if unify(p, g, vars, nb) && len(nb) > len(b) {
-					search(nb, depth+1)
-					if len(results) >= 48 {
-						return
+			}
+		}
+		if len(full) == 0 && len(partial) > 0 {
+			// one greedy multi-pattern
+			covered := map[*Term]bool{}
+			var mp []*Term
+			for len(covered) < len(vars) {
+				best, gain := -1, 0
+				for i, c := range partial {
+					g := 0
+					for v := range varsOf(c) {
+						if !covered[v] {
+							g++
+						}
+					}
+					if g > gain {
+						gain, best = g, i
+					}
+				}
+				if best < 0 {
+					mp = nil
+					break
+				}
+				mp = append(mp, partial[best])
+				for v := range varsOf(partial[best]) {
+					covered[v] = true
+				}
+			}
+			var join func(k int, b map[*Term]*Term)
+			join = func(k int, b map[*Term]*Term) {
+				if len(results) >= 400 {
+					return
+				}
+				if k == len(mp) {
+					if len(b) == len(vars) {
+						results = append(results, b)
+					}
+					return
+				}
+				for _, g := range ic.ground {
+					if g.S != mp[k].S {
+						continue
+					}
+					nb := map[*Term]*Term{}
+					for x, y := range b {
+						nb[x] = y
+					}
+					if unify(mp[k], g, vars, nb) {
+						join(k+1, nb)
 					}
 				}
 			}
-			// only the first applicable pattern is used to extend (keeps the search small)
-			break
-		}
-	}
-	if len(pats) > 0 {
-		search(map[*Term]*Term{}, 0)
-		// also try starting from each other pattern (different triggers)
-		if len(results) < 48 {
-			for pi := 1; pi < len(pats) && pi < 6; pi++ {
-				rot := append([]*Term{}, pats[pi:]...)
-				rot = append(rot, pats[:pi]...)
-				saved := pats
-				pats = rot
-				search(map[*Term]*Term{}, 0)
-				pats = saved
+			if mp != nil {
+				join(0, map[*Term]*Term{})
 			}
 		}
 	}
@@ -793,6 +948,7 @@ func (ic *instCtx) instForall(h *Term, guard *Term) {
 		fmt.Fprintf(os.Stderr, "INST %d results, %d pats, %d ground: %s\n", len(results), len(pats), len(ic.ground), hs)
 	}
 	dedup := map[string]bool{}
+	newCount := 0
 	for _, b := range results {
 		key := ""
 		for _, v := range h.Vars {
@@ -802,7 +958,15 @@ func (ic *instCtx) instForall(h *Term, guard *Term) {
 			continue
 		}
 		dedup[key] = true
-		ic.emit(Implies(guard, Subst(body, b)))
+		g := Implies(guard, Subst(body, b))
+		if g == True || ic.seenInst[g] {
+			continue
+		}
+		ic.emit(g)
+		newCount++
+		if newCount >= ic.perRound {
+			break // fair share: the remaining matches are picked up in the next round
+		}
 	}
 	// brute force at skolems / program variables
 	cands := map[*Sort][]*Term{}
